@@ -47,8 +47,8 @@ static std::vector<CheckSpec> &specs() {
 	add("C14", "exploration", {{"async", "C14", 16000, 1000000}, {"world", "C14", 4000, 200000}});
 	add("C06", "exploration", {{"async", "C06", 12000, 600000}, {"world", "C06", 500, 40000}});
 	add("C15", "exploration", {{"ha", "C15", 12000, 800000}});
-	add("C07", "exploration", {{"world", "C07", 12000, 600000}});
-	add("C08", "exploration", {{"world", "C08", 10000, 500000}});
+	add("C07", "exploration", {{"world", "C07", 12000, 600000}, {"async", "C07", 8000, 300000}});
+	add("C08", "exploration", {{"world", "C08", 10000, 500000}, {"async", "C08", 6000, 250000}});
 	add("C04", "exploration", {{"trust", "C04", 6000, 300000}});
 	add("C11", "exploration", {{"history", "C11", 6000, 300000}, {"trust", "C11", 1500, 60000}});
 	add("C16", "exploration", {{"history", "C16", 6000, 300000}});
